@@ -24,6 +24,7 @@ META = dict(
 )
 META["text"] += ' (R5, N) no estimator, bet or test obtains a parameter as `value or default`, which would replace a configured 0 (a legitimate assumed error rate, shrinkage weight or padding) by the default.'
 META["text"] += " (R6, N) NonnegMean's constructor stores u, N, t, random_order from its parameters and installs every keyword argument as an attribute (where the estimators and bets read their tuning parameters)."
+META["text"] += ' (R7, P) formula identities: fixed_alternative_mean == (N eta - S_{j-1})/(N - j + 1) (eta with replacement), optimal_comparison == its documented closed form; a clamp around the formula is accepted. They keep changes of these two estimators from hiding behind the open findings K2a/K2b.'
 
 REL = nnm.REL
 
